@@ -85,3 +85,19 @@ Lemma penta_witness :
   penta_all_exact = true /\
   lquad penta_K penta_x < 0.
 Proof. vm_compute. repeat split; reflexivity. Qed.
+
+(* ------------------------------------------------------------------ the optimised matrix = its definition *)
+Lemma cell_value_pair_cors cs ndim m iv jv p1 p2 :
+  cell_value m iv jv (pair_cors cs ndim m p1 p2) = model_eval cs ndim m iv jv p1 p2.
+Proof.
+  unfold cell_value, pair_cors, model_eval. f_equal. f_equal. rewrite map_map.
+  apply map_ext. intros [c|]; reflexivity.
+Qed.
+Lemma cov_matrix_eq cs ndim m nvar pts : cov_matrix cs ndim m nvar pts = cov_matrix_spec cs ndim m nvar pts.
+Proof.
+  unfold cov_matrix, cov_matrix_spec. cbv zeta.
+  apply flat_map_ext. intro iv.
+  rewrite map_map. apply map_ext. intro p1.
+  apply flat_map_ext. intro jv.
+  rewrite map_map. apply map_ext. intro p2. apply cell_value_pair_cors.
+Qed.
